@@ -68,6 +68,10 @@ def opsExpr : List (String × Handler) := [
   ("jet_jvp", do
     let (_, fs, inits, t, num) ← pOdeProblem
     pure (showCoeffs (Jet.jvpVariant fs inits t num))),
+  -- = jet_jvp by `C10.jvp_variant_spec` + `C10.paddedScan_exact` (polynomial instead of exponential cost)
+  ("jet_jvp_frozen", do
+    let (_, fs, inits, t, num) ← pOdeProblem
+    pure (showCoeffs (Jet.paddedScan (fs.map (Expr.freeze t)) inits t num))),
   ("jet_jvp_aug", do
     let (_, fs, inits, t, num) ← pOdeProblem
     pure (showCoeffs (Jet.jvpVariantAug fs inits t num))),
